@@ -46,6 +46,8 @@ def check(run):
             raise AnalysisError('anchored class vanished: %s' % n)
     _r1(run, classes)
     _r2(run, classes)
+    from ..cachekey import check_caches
+    check_caches(run, [m for k, m in prog.modules.items() if k.startswith('cherab.tools.equilibrium') and not k.endswith('#pxd')], 'C12-K')
 
 
 def _ret_vec(ci, run, K):
